@@ -65,15 +65,18 @@ func c12Gen() *symir.Gen {
 	g.Required = true
 	g.Defaults = true
 	g.Constraints = true
+	// structs of one field, unions of up to three branches (the third a scalar or null)
+	g.Kinds = symir.KScalar | symir.KConstScalar | symir.KRef | symir.KArray | symir.KMap | symir.KStruct | symir.KDisjunction
+	g.Width = 1
+	g.UnionWidth = 3
+	g.UnionTailLeaves = symir.KScalar | symir.KNullScalar
+	g.UnionExtraLeaves = symir.KNullScalar
 	if v.Tier() == 0 {
 		g.Scalars = []string{"string", "int64"}
 		g.Leaves = symir.KScalar | symir.KRef | symir.KEnum
-		g.Kinds = symir.KScalar | symir.KConstScalar | symir.KRef | symir.KArray | symir.KMap | symir.KStruct | symir.KDisjunction
-		g.Width = 1
-		g.UnionWidth = 3
-		g.UnionTailLeaves = symir.KScalar | symir.KNullScalar
-		g.UnionExtraLeaves = symir.KNullScalar
 	}
+	// thorough: additionally the `any` scalar kind and constants in leaf positions (structs of two fields with
+	// defaults and constraints on both square the number of shapes and do not complete)
 	return g
 }
 
